@@ -28,6 +28,8 @@ def run(repo: Repo, tier, rep: Report):
     check_purity(repo, addp, only={"time_slice"})
     from sa.query_check import check_enumeration_dependency
     check_enumeration_dependency(repo, rep, common.enumeration_users(repo, ['time_slice']))
+    from sa.conv_graph import check_time_slice_on_graphs
+    rep.floor("graph-level slices interpreted", check_time_slice_on_graphs(repo, rep, tier), 500)
     rep.assume(*common.CTOR_ASSUMPTIONS)
     rep.assume("'slice of a slice = slice by the intersection' and 'H is well formed' follow from exact clipping plus C01-C05 on H; "
                "they are not separately checked")
